@@ -204,14 +204,17 @@ def gen_random(rnd, ops, n_hist, length, depths=(1, 2, 3, 4, 5)):
 
 
 BIG = 1 << 20
-PROBES = [0, 1, (1 << 19) - 1, 1 << 19, BIG - 1]
+PROBES = [0, 1, 255, 256, 257, (1 << 19) - 1, 1 << 19, BIG - 1]
 
 
-def gen_random_big(rnd, ops, n_hist, length, near_end=False):
-    """depth-20 histories through the RLN API: boundary positions of the real tree, few touched leaves"""
+def gen_random_big(rnd, ops, n_hist, length, near_end=False, depth=20):
+    """large-depth histories (sparse observation): boundary positions of the real tree, few touched leaves"""
+    BIG = 1 << depth
+    HALF = BIG >> 1
+    probes = sorted({0, 1, 255, 256, 257, HALF - 1, HALF, BIG - 1} if depth != 20 else set(PROBES))
     scen = []
     for _ in range(n_hist):
-        scen.append({"c": "reset", "d": 20, "probe": PROBES})
+        scen.append({"c": "reset", "d": depth, "probe": probes})
         low = rnd.random() < 0.5          # half of the histories stay below 300 so that the empty list is observable
         for _ in range(length):
             c = rnd.choice(ops)
@@ -219,7 +222,7 @@ def gen_random_big(rnd, ops, n_hist, length, near_end=False):
             if low:
                 pos = lambda: rnd.choice([0, 1, 2, 3, 255, 256, rnd.randrange(300), rnd.randrange(16)])
             else:
-                pos = lambda: rnd.choice([0, 1, 255, (1 << 19) - 1, 1 << 19, (1 << 19) + 1, BIG - 2, BIG - 1, BIG, rnd.randrange(300)])
+                pos = lambda: rnd.choice([0, 1, 255, HALF - 1, HALF, HALF + 1, BIG - 2, BIG - 1, BIG, rnd.randrange(300)])
             if c == "set":
                 scen.append({"c": "set", "i": pos(), "v": v()})
             elif c == "delete":
@@ -230,7 +233,7 @@ def gen_random_big(rnd, ops, n_hist, length, near_end=False):
                 # (pmtree walks the whole right half for a range that starts near the end of the tree: keep
                 #  accepted ranges away from there, rejected ones are fine)
                 n = rnd.choice([0, 1, 2, 3, 5])
-                st = rnd.choice([0, 1, 255, (1 << 19) - 1, 1 << 19, (1 << 19) + 1, BIG, rnd.randrange(300)]) if not low else pos()
+                st = rnd.choice([0, 1, 255, HALF - 1, HALF, HALF + 1, BIG, rnd.randrange(300)]) if not low else pos()
                 if near_end and not low and rnd.random() < 0.4:
                     st = rnd.choice([BIG - 3, BIG - 2, BIG - 1])        # in-memory backends: accepted ranges ending at capacity
                 elif st == BIG - 1 and n == 1:
@@ -242,7 +245,7 @@ def gen_random_big(rnd, ops, n_hist, length, near_end=False):
                 rem = [rnd.choice([0, 1, 2, 3, 255, rnd.randrange(256), rnd.randrange(16)]) for _ in range(k)]
                 st = rnd.choice([0, 1, 2, 3, 255, 256, rnd.randrange(300), rnd.randrange(16)])
                 if not low and (n == 0 or k == 0):
-                    st = rnd.choice([st, (1 << 19) - 1, 1 << 19, BIG])
+                    st = rnd.choice([st, HALF - 1, HALF, BIG])
                 scen.append({"c": "override", "s": st, "vs": [v() for _ in range(n)], "rem": rem})
             elif c == "init":
                 n = rnd.choice([0, 1, 2, 4])
@@ -387,6 +390,10 @@ def run_property(prop, tier, out, binary=None):
         scenarios.append((f"rln-d20-{cfgname}", gen_random_big(rnd, rops, 10 if quick else 120, 25, near_end=True), ["rln", cfgname]))
         if not quick:
             scenarios.append((f"rln-tour-d2-{cfgname}", scr, ["rln", cfgname]))
+    # 6. the three backends at the trait level at depths 10 and 20 (sparse observation; proofs of low, high and
+    #    moving positions with everything the proof type exposes: decoded position, recomputed root, verdicts)
+    for dd in (10, 20):
+        scenarios.append((f"big-d{dd}", gen_random_big(rnd, ops, 6 if quick else 60, 20, near_end=False, depth=dd), ["full", "optimal", "pm"]))
     total_events = 0
     distinct = nontriv = 0
     traces_ok = 0
